@@ -538,6 +538,22 @@ func (g *c13ValGen) leaf(name string, isPath bool) *c13J {
 	case r < 92:
 		g.tag("relative-path")
 		return c13Str("not/absolute/" + name)
+	case r < 93:
+		if g.overlap {
+			// files/ref_N -> <external dir>; the output is files/ref_N/y
+			g.tag("symlinked-parent-outside")
+			g.next++
+			extDir := filepath.Join(g.ext, fmt.Sprintf("refdata_%d", g.next))
+			os.MkdirAll(extDir, 0o755)
+			g.next++
+			os.WriteFile(filepath.Join(extDir, "y"), []byte(strconv.Itoa(g.next)), 0o644)
+			g.next++
+			os.WriteFile(filepath.Join(extDir, "x"), []byte(strconv.Itoa(g.next)), 0o644)
+			link := filepath.Join(g.files, fmt.Sprintf("ref_%d", g.next))
+			os.Symlink(extDir, link)
+			return c13Str(filepath.Join(link, "y"))
+		}
+		fallthrough
 	case r < 94:
 		if g.overlap && len(g.dirs) > 0 {
 			g.tag("overlap")
@@ -658,7 +674,7 @@ func (g *c13ValGen) value(t *c13Ty, name string) *c13J {
 }
 
 var c13OutOfDomain = map[string]bool{"illtyped": true, "illegal-key": true, "struct-missing-key": true,
-	"struct-extra-key": true, "overlap": true, "relative-path": true}
+	"struct-extra-key": true, "overlap": true, "relative-path": true, "symlinked-parent-outside": true}
 
 type c13Stats struct {
 	compileRejected int
@@ -667,6 +683,9 @@ type c13Stats struct {
 
 // c13Direct runs one direct case; returns false when the signature did not compile.
 func c13Direct(c *Ctx, r *Result, idx int, seed int64, nearMiss, overlap bool, corpusName string) bool {
+	if os.Getenv("C13_TRACE") != "" {
+		fmt.Fprintf(os.Stderr, "direct %d seed=%d nearMiss=%v overlap=%v\n", idx, seed, nearMiss, overlap)
+	}
 	rng := rand.New(rand.NewSource(seed))
 	sig := c13GenSig(rng, nearMiss && rng.Intn(2) == 0)
 	src := sig.mro("", false)
@@ -721,6 +740,28 @@ func c13Direct(c *Ctx, r *Result, idx int, seed int64, nearMiss, overlap bool, c
 	for i, p := range params {
 		c13Leaves(p, outs.Vals[i], func(_ c13Member, v *c13J) { mon.record(v) })
 	}
+	// simulated crash point: an earlier post-process was killed after it had completely moved some
+	// leaves and between os.Rename(file, outs/…) and os.Symlink(…, file) of ONE more (that file is
+	// under outs/, its source path is gone); `_outs` still holds the old record.  What follows is
+	// the pass after the restart.
+	if idx%10 == 3 && !nearMiss && !overlap {
+		var movable []c13SrcDest
+		for _, sd := range c13OrderedLeaves("", params, outs, ps) {
+			if mon.kind[sd.src] == "reg" && mon.occ[sd.src] == 1 && strings.HasPrefix(sd.src, g.files+"/") {
+				movable = append(movable, sd)
+			}
+		}
+		if len(movable) > 0 {
+			k := rng.Intn(len(movable))
+			for j := 0; j < k; j++ {
+				c13SimulateMove(movable[j], 3)
+			}
+			if c13SimulateMove(movable[k], 2) {
+				g.tag("crash-after-rename")
+			}
+		}
+	}
+	extBefore := c13Snapshot([]string{g.ext}, cs, nil)
 	before := c13Snapshot([]string{root}, cs, nil)
 
 	// ---- the real code: processStructOuts / handleOuts around moveOutFiles ----
@@ -812,6 +853,13 @@ func c13Direct(c *Ctx, r *Result, idx int, seed int64, nearMiss, overlap bool, c
 			r.hist("direct:invalid-json-out-of-domain")
 		}
 	} else if inDomain {
+		if d := c13TreeDiff(extBefore, c13Snapshot([]string{g.ext}, cs, nil), []string{g.ext}); len(d) > 0 {
+			for i := range d {
+				d[i] = strings.ReplaceAll(d[i], root, "$ROOT") + " (model = after)"
+			}
+			r.violate(Violation{Kind: "property", Key: "C13:outside-touched", What: "something outside the pipestance was modified by post-processing",
+				Input: cas, Impl: d})
+		}
 		for _, p := range params {
 			mon.walk(p.Id, p, outs.get(p.Id), post.get(p.Id), outsPath)
 		}
@@ -830,6 +878,16 @@ func c13Direct(c *Ctx, r *Result, idx int, seed int64, nearMiss, overlap bool, c
 			r.violate(Violation{Kind: "property", Key: "C13:alias-record-points-at-first", What: strings.Join(mon.alias, "; "),
 				Input: cas, Impl: strings.ReplaceAll(realStr, root, "$ROOT")})
 		}
+	} else if g.tags["symlinked-parent-outside"] && !g.tags["overlap"] {
+		// the leaf's path is lexically inside the pipestance but resolves into an external directory
+		if d := c13TreeDiff(extBefore, c13Snapshot([]string{g.ext}, cs, nil), []string{g.ext}); len(d) > 0 {
+			for i := range d {
+				d[i] = strings.ReplaceAll(d[i], root, "$ROOT") + " (model = after)"
+			}
+			r.violate(Violation{Kind: "property", Key: "C13:symlinked-parent-resolves-outside",
+				What:  "an output below a symlinked directory that points outside the pipestance: the external directory was modified",
+				Input: cas, Impl: d, Expect: "nothing outside the pipestance is touched; sources outside are linked, not moved"})
+		}
 	} else if overlap && g.tags["overlap"] && perr == nil {
 		for _, p := range params {
 			mon.walk(p.Id, p, outs.get(p.Id), post.get(p.Id), outsPath)
@@ -844,7 +902,7 @@ func c13Direct(c *Ctx, r *Result, idx int, seed int64, nearMiss, overlap bool, c
 	}
 
 	// ---- the model ----
-	if g.tags["overlap"] {
+	if g.tags["overlap"] || g.tags["symlinked-parent-outside"] {
 		return true // intermediate symlinked directories are not modelled
 	}
 	reply := c.Drv.Ask("C13.run", "o", "g", hx(ps), hx(outsPath), c13EncParams(params), outs.encStr(), before.enc(c13Ancestors(root)))
@@ -943,6 +1001,11 @@ func c13FailKey(params []c13Member, outs *c13J, tags []string) string {
 	}
 	if multidim {
 		return "C13:multidim-file-array"
+	}
+	for _, t := range tags {
+		if t == "crash-after-rename" {
+			return "C13:crash-between-rename-and-symlink"
+		}
 	}
 	return "C13:materialise"
 }
@@ -1054,7 +1117,7 @@ func runC13(c *Ctx) {
 	}
 	for i := 0; i < nDirect; i++ {
 		nearMiss := i%5 == 4
-		overlap := i%50 == 7
+		overlap := i%50 == 7 || i%50 == 31
 		c13Direct(c, r, i, c.Rng.Int63(), nearMiss, overlap, "")
 	}
 
@@ -1174,4 +1237,88 @@ func c13Scratch(c *Ctx) string {
 		}
 	}
 	return c13ScratchDir
+}
+
+type c13SrcDest struct{ src, dest string }
+
+// c13OrderedLeaves: (source, derived destination) of every path-naming file leaf, in the order
+// in which the real code visits them (parameters in declaration order, struct members and map
+// keys sorted, array elements in order).
+func c13OrderedLeaves(mapped string, params []c13Member, preJ *c13J, psDir string) []c13SrcDest {
+	var out []c13SrcDest
+	var walk func(mem c13Member, v *c13J, dir string)
+	walk = func(mem c13Member, v *c13J, dir string) {
+		if v == nil || v.K == 'n' || !mem.Ty.hasFile() {
+			return
+		}
+		dest := filepath.Join(dir, mem.expectName())
+		switch mem.Ty.Kind {
+		case "f":
+			if v.K == 'q' && v.S != "" {
+				out = append(out, c13SrcDest{v.S, dest})
+			}
+		case "a":
+			if v.K != 'A' {
+				return
+			}
+			et := mem.Ty.Elem
+			if mem.Ty.Extra > 0 {
+				et = &c13Ty{Kind: "a", Elem: mem.Ty.Elem, Extra: mem.Ty.Extra - 1}
+			}
+			for i, x := range v.Arr {
+				walk(c13Member{Id: c13Pad(i, len(v.Arr)), Ty: et}, x, dest)
+			}
+		case "m":
+			if v.K != 'O' {
+				return
+			}
+			ks := append([]string{}, v.Keys...)
+			sort.Strings(ks)
+			for _, k := range ks {
+				walk(c13Member{Id: k, Ty: mem.Ty.Elem}, v.get(k), dest)
+			}
+		case "t":
+			if v.K != 'O' {
+				return
+			}
+			ms := append([]c13Member{}, mem.Ty.Ms...)
+			sort.Slice(ms, func(i, j int) bool { return ms[i].Id < ms[j].Id })
+			for _, mm := range ms {
+				walk(mm, v.get(mm.Id), dest)
+			}
+		}
+	}
+	outsRoot := filepath.Join(psDir, "outs")
+	c13ForEachRecord(mapped, preJ, func(k string, rec *c13J) {
+		dir := outsRoot
+		if mapped != "" {
+			dir = filepath.Join(outsRoot, k)
+		}
+		for _, p := range params {
+			walk(p, rec.get(p.Id), dir)
+		}
+	})
+	return out
+}
+
+// c13SimulateMove performs the first `steps` file-system steps of moveOutFile's move of one
+// regular file or directory: 1 = MkdirAll(dir of dest), 2 = + Rename(src, dest), 3 = + Symlink(rel, src).
+func c13SimulateMove(sd c13SrcDest, steps int) bool {
+	if steps >= 1 {
+		if os.MkdirAll(filepath.Dir(sd.dest), 0o775) != nil {
+			return false
+		}
+	}
+	if steps >= 2 {
+		if os.Rename(sd.src, sd.dest) != nil {
+			return false
+		}
+	}
+	if steps >= 3 {
+		rel, err := filepath.Rel(filepath.Dir(sd.src), sd.dest)
+		if err != nil || os.Symlink(rel, sd.src) != nil {
+			return false
+		}
+	}
+	return true
 }
